@@ -61,12 +61,20 @@ def build_workflow(spec: dict):
         if stype == "v":
             stage.tasks = make_tasks(script["t"])
         stages.append(stage)
-    return Workflow.create(
+    wfa = spec.get("wf") or {}
+    wf = Workflow.create(
         application="verif",
         name=spec.get("name", "wf"),
         stages=stages,
         context=copy.deepcopy(spec.get("context") or {}),
+        pipeline_config_id=wfa.get("pipeline_config_id"),
     )
+    if "max_concurrent_executions" in wfa:
+        wf.is_limit_concurrent = True
+        wf.max_concurrent_executions = int(wfa["max_concurrent_executions"])
+    if "keep_waiting_pipelines" in wfa:
+        wf.keep_waiting_pipelines = bool(wfa["keep_waiting_pipelines"])
+    return wf
 
 
 # ---------------------------------------------------------------------------
